@@ -32,6 +32,10 @@ translator lib/leaftrans.py accepts, without looking at the shape of the text:
     are then statically decided keep only the live branch
   * `for` / `while` loops are unrolled (at most 3 iterations, break / continue supported); the loop
     must provably exit: if a 4th iteration is reachable the function is rejected
+  * a local of a struct type with integer fields is replaced by one integer local per field (the fields are
+    those accessed anywhere in the function and the file-local functions it calls); it may be initialised by
+    an initialiser list whose values are all equal ({0}, {0, 0, 0}) or by a file-local function that returns
+    the struct by value, and passed to file-local functions by address (`const T *p`: p->f is the field)
 
 Anything else raises LeafError (reported as a broken obligation, never silently skipped)."""
 import copy
@@ -88,6 +92,69 @@ class Slicer:
         self.ring = None
         self.depth = 0
         self.loops = []
+        self.root = None
+        self._sf = {}
+
+    # ---- struct locals with integer fields -> one integer local per field ----
+    def base_type(self, q):
+        return q.replace("const ", "").replace("struct ", "").replace("*", "").strip()
+
+    def preload(self, f):
+        """load every file-local function reachable from f (so that struct_fields sees all member accesses)"""
+        seen = set()
+
+        def walk(n):
+            if n.get("kind") == "CallExpr":
+                try:
+                    nm = self.callee(n)
+                except L.LeafError:
+                    nm = None
+                if nm and nm not in seen:
+                    seen.add(nm)
+                    g = self.fn(nm)
+                    if g is not None:
+                        walk(g)
+            for c in n.get("inner", []):
+                walk(c)
+        walk(f)
+
+    def struct_fields(self, tname):
+        """{field: type} of the integer fields of struct type tname that the loaded functions access"""
+        if tname in (RING, HDRT, BLOCKT) or not tname or tname in L.INT_TYPES:
+            return {}
+        if tname not in self._sf:
+            out = {}
+
+            def walk(n):
+                if n.get("kind") == "MemberExpr" and n.get("inner") and n.get("name"):
+                    if self.base_type(qt(n["inner"][0])) == tname and L.ctype(n) is not None:
+                        out.setdefault(n["name"], qt(n))
+                for c in n.get("inner", []):
+                    walk(c)
+            for g in [self.root] + list(self.cache.values()):
+                if g:
+                    walk(g)
+            self._sf[tname] = out
+        return self._sf[tname]
+
+    def struct_of(self, n, sub):
+        """the tracked struct local an expression denotes (x, *p, p for a by-address parameter), else None"""
+        n = strip_all(n)
+        if n.get("kind") == "UnaryOperator" and n.get("opcode") in ("&", "*"):
+            n = strip_all(n["inner"][0])
+        if n.get("kind") == "DeclRefExpr":
+            v = sub.get(n["referencedDecl"]["name"])
+            if v and v[0] == "struct":
+                return v
+        return None
+
+    def new_struct(self, base, fields, value_of):
+        pre, names = [], {}
+        for fname in sorted(fields):
+            nm = self.fresh(base + "_" + fname)
+            pre.append(decl(nm, fields[fname], value_of(fname, fields[fname])))
+            names[fname] = (nm, fields[fname])
+        return pre, ("struct", names)
 
     # sizes as printed by the params program of this run
     def size_of(self, ty):
@@ -153,6 +220,8 @@ class Slicer:
         if n.get("kind") != "CallExpr":
             return False
         f = self.fn(self.callee(n))
+        if f is not None and self.struct_fields(self.base_type(f["type"]["qualType"].split("(")[0])):
+            return False          # returns a struct by value: handled where the struct local is declared
         return f is not None and self.single_return(f) is None and not self.is_ptr_helper(n)
 
     def find_hoist(self, n):
@@ -405,6 +474,11 @@ class Slicer:
             elif t.strip().endswith("*") and L.ctype({"type": {"qualType": t.strip()[:-1].strip()}}) is not None and \
                     strip_all(a).get("kind") == "DeclRefExpr" and sub.get(strip_all(a)["referencedDecl"]["name"], (None,))[0] == "outp":
                 subh[p["name"]] = sub[strip_all(a)["referencedDecl"]["name"]]
+            elif t.strip().endswith("*") and self.struct_fields(self.base_type(t)):
+                v = self.struct_of(a, sub)
+                if v is None:
+                    raise L.LeafError("argument for %s of %s is not a tracked struct local" % (p["name"], f["name"]))
+                subh[p["name"]] = v
             elif t.strip().endswith("*"):
                 d, v = self.bind_ptr(a, sub)
                 pre += d
@@ -431,6 +505,12 @@ class Slicer:
             return {"kind": "ImplicitCastExpr", "castKind": "LValueToRValue", "type": n["type"],
                     "inner": [self.rx(p["inner"][0], sub)]}
         if k == "MemberExpr":
+            sv = self.struct_of(n["inner"][0], sub) if n.get("inner") else None
+            if sv is not None:
+                if n.get("name") not in sv[1]:
+                    raise L.LeafError("field %s of a struct local is not an integer field" % n.get("name"))
+                nm, ty = sv[1][n["name"]]
+                return lvar(nm, ty)
             b = self.member_base(n)
             if self.is_ring(b, sub):
                 if n["name"] in CACHED:
@@ -622,6 +702,41 @@ class Slicer:
                         sub[d["name"]] = v
                     else:
                         sub[d["name"]] = ("ptr?",)
+                elif self.struct_fields(self.base_type(t)):
+                    fields = self.struct_fields(self.base_type(t))
+                    i0 = strip_all(init[-1]) if init else None
+                    if i0 is not None and i0.get("kind") == "CallExpr":
+                        # T x = f(...): f is a file-local function returning the struct by value
+                        if len(s.get("inner", [])) != 1:
+                            raise L.LeafError("struct local initialised by a call in a multiple declaration")
+                        if self.fn(self.callee(i0)) is None:
+                            raise L.LeafError("struct local initialised by a call of %s: no definition in this file" % self.callee(i0))
+
+                        def on_return(e, subh, d=d, fields=fields):
+                            sv = self.struct_of(e, subh) if e is not None else None
+                            if sv is None:
+                                raise L.LeafError("returned struct is not a tracked struct local")
+                            pre, v = self.new_struct(d["name"], fields, lambda fn_, ty: var(sv[1][fn_][0], ty))
+                            sub2 = dict(sub)
+                            sub2[d["name"]] = v
+                            return pre + self.seq(R, sub2, cont, retk)
+                        return out + self.inline(i0, sub, on_return)
+                    if i0 is not None and self.struct_of(i0, sub) is not None:
+                        sv = self.struct_of(i0, sub)
+                        pre, v = self.new_struct(d["name"], fields, lambda fn_, ty: var(sv[1][fn_][0], ty))
+                    else:
+                        val = 0
+                        if i0 is not None:
+                            if i0.get("kind") != "InitListExpr":
+                                raise L.LeafError("unsupported initialiser of a struct local")
+                            vals = [0 if c.get("kind") == "ImplicitValueInitExpr" else self.static_int(c, sub)
+                                    for c in i0.get("inner", [])]
+                            if any(x is None for x in vals) or len(set(vals + ([0] if len(vals) < len(fields) else []))) > 1:
+                                raise L.LeafError("initialiser list of a struct local is not one constant for every field")
+                            val = vals[0] if vals else 0
+                        pre, v = self.new_struct(d["name"], fields, lambda fn_, ty: lit(val))
+                    out += pre
+                    sub[d["name"]] = v
                 else:
                     raise L.LeafError("unsupported local of type " + t)
             return out + self.seq(R, sub, cont, retk)
@@ -640,6 +755,13 @@ class Slicer:
                 return self.hoisted(s, R, sub, cont, retk)
             lhs, rhs = s["inner"]
             l0 = strip_all(lhs)
+            if s.get("opcode") == "=" and self.struct_of(l0, sub) is not None and L.ctype(s) is None:
+                # whole-struct assignment from another tracked struct local
+                sv, dv = self.struct_of(rhs, sub), self.struct_of(l0, sub)
+                if sv is None:
+                    raise L.LeafError("struct assigned from something that is not a tracked struct local")
+                return [assign(lvar(dv[1][f_][0], dv[1][f_][1]), var(sv[1][f_][0], sv[1][f_][1]), dv[1][f_][1])
+                        for f_ in sorted(dv[1])] + self.seq(R, sub, cont, retk)
             if l0.get("kind") == "MemberExpr" and l0.get("name") in CACHED and self.is_ring(self.member_base(l0), sub):
                 if s["opcode"] != "=":
                     raise L.LeafError("arithmetic on a cached header pointer")
@@ -695,6 +817,8 @@ class Slicer:
             raise L.LeafError("function %s not found in %s" % (name, self.src))
         self.uid = 0
         self.loops = []
+        self.root = f
+        self.preload(f)
         sub, parms = {}, []
         for p in [c for c in f.get("inner", []) if c.get("kind") == "ParmVarDecl"]:
             t = qt(p)
@@ -764,3 +888,232 @@ def translate_sliced(src, name, cflags, gname, sizeofs=None):
     args = ["(%s : %s)" % (k, "list Z" if a else "Z") for k, a in t.fields] + ["(%s : Z)" % p for p in t.params]
     text = "Definition %s %s :=\n  %s.\n" % (gname, " ".join(args), code)
     return text, t.fields, t.params, t.all_written, ret_kind
+
+
+# ---------------------------------------------------------------------------------------------------
+# muggle_shm_ringbuf_open: the size computation and the initial values of the ring fields.
+#
+# The function has no ring parameter: the ring is what muggle_shm_open returns.  The slicer treats
+#   p = muggle_shm_open(shm, k_name, k_num, flag, <bytes>)   as   ring->seg_bytes = <bytes>; p := the ring
+# (the ring pointer is non-NULL: `p == NULL` / `!p` are statically false), expands
+#   memset(p, 0, sizeof(*p))                                  to   ring->f = 0 for every integer field f,
+# skips muggle_spinlock_init(&p->lock) (no integer content), keeps calls of the pure integer function
+# muggle_next_pow_of_2 as an application of the Gallina function `npo2` (C08/Model.v, = the C20 model of that
+# function), replaces enum constants by the values printed by the params program of this run, and projects the
+# result to 0 (NULL) / 1 (the ring).  The generated function takes the previous values of the ring fields,
+# the integer parameters (k_num, flag, nbytes) and returns (result, fields in alphabetical order).
+OPEN_FIELDS = ["magic", "n_bytes", "total_bytes", "n_cacheline", "ready", "write_cursor", "cached_remain", "read_cursor"]
+EXTERN_PURE = {"muggle_next_pow_of_2": "npo2"}
+EXTERN_SKIP = ("muggle_spinlock_init",)
+OPEN_RING = "rb__ring"
+
+
+def _is_null(n):
+    while n.get("kind") in ("ParenExpr", "ImplicitCastExpr", "CStyleCastExpr"):
+        n = n["inner"][-1]
+    return (n.get("kind") == "IntegerLiteral" and n.get("value") == "0") or n.get("kind") == "GNUNullExpr"
+
+
+class OpenSlicer(Slicer):
+    def __init__(self, src, cflags, sizeofs=None, enums=None):
+        Slicer.__init__(self, src, cflags, sizeofs)
+        self.enums = enums or {}
+        self.ring = OPEN_RING
+
+    def shm_open_call(self, n):
+        n = strip_all(n)
+        if n.get("kind") == "CallExpr":
+            try:
+                if self.callee(n) == "muggle_shm_open":
+                    return n
+            except L.LeafError:
+                return None
+        return None
+
+    def ring_valued(self, n, sub):
+        n0 = strip_all(n)
+        return n0.get("kind") == "DeclRefExpr" and sub.get(n0["referencedDecl"]["name"], (None,))[0] == "ring"
+
+    def static_int(self, n, sub):
+        k = n.get("kind")
+        if k == "BinaryOperator" and n.get("opcode") in ("==", "!="):
+            a, b = n["inner"]
+            for x, y in ((a, b), (b, a)):
+                if self.ring_valued(x, sub) and _is_null(y):
+                    return 0 if n["opcode"] == "==" else 1
+        if k == "UnaryOperator" and n.get("opcode") == "!" and self.ring_valued(n["inner"][0], sub):
+            return 0
+        if k in ("ImplicitCastExpr", "CStyleCastExpr") and n.get("castKind") == "PointerToBoolean" and \
+                self.ring_valued(n["inner"][-1], sub):
+            return 1
+        if self.ring_valued(n, sub) and qt(strip_all(n)).strip().endswith("*"):
+            return 1
+        return Slicer.static_int(self, n, sub)
+
+    def find_hoist(self, n):
+        # the external calls are not inlined
+        if n.get("kind") == "CallExpr":
+            try:
+                if self.callee(n) in EXTERN_PURE or self.callee(n) in EXTERN_SKIP or self.callee(n) in ("memset", "muggle_shm_open"):
+                    for c in n.get("inner", [])[1:]:
+                        r = self.find_hoist(c)
+                        if r is not None:
+                            return r
+                    return None
+            except L.LeafError:
+                pass
+        return Slicer.find_hoist(self, n)
+
+    def rx(self, n, sub):
+        k = n.get("kind")
+        if k == "DeclRefExpr" and n.get("referencedDecl", {}).get("kind") == "EnumConstantDecl":
+            nm = n["referencedDecl"]["name"]
+            if nm not in self.enums:
+                raise L.LeafError("value of the enum constant %s is not known" % nm)
+            return lit(self.enums[nm], "int")
+        if k == "CallExpr":
+            nm = self.callee(n)
+            if nm in EXTERN_PURE:
+                out = dict(n)
+                out["inner"] = [n["inner"][0]] + [self.rx(c, sub) for c in n["inner"][1:]]
+                return out
+            if nm == "muggle_shm_open":
+                raise L.LeafError("result of muggle_shm_open used inside an expression")
+        return Slicer.rx(self, n, sub)
+
+    def open_stmts(self, call, sub):
+        args = call["inner"][1:]
+        if len(args) != 5:
+            raise L.LeafError("muggle_shm_open called with %d arguments" % len(args))
+        return [assign(self.field("seg_bytes"), self.rx(args[4], sub))]
+
+    def seq(self, stmts, sub, cont, retk):
+        if stmts:
+            s, R = stmts[0], list(stmts[1:])
+            k = s.get("kind")
+            if k == "DeclStmt" and len(s.get("inner", [])) >= 1:
+                ds = s["inner"]
+                for i, d in enumerate(ds):
+                    init = d.get("inner", [])
+                    if d.get("kind") == "VarDecl" and init and self.shm_open_call(init[-1]) is not None:
+                        if RING not in qt(d):
+                            raise L.LeafError("result of muggle_shm_open kept in a %s" % qt(d))
+                        before = [{"kind": "DeclStmt", "inner": ds[:i]}] if i else []
+                        after = [{"kind": "DeclStmt", "inner": ds[i + 1:]}] if ds[i + 1:] else []
+
+                        def k2(s2, d=d, init=init, after=after):
+                            pre = self.open_stmts(self.shm_open_call(init[-1]), s2)
+                            s2[d["name"]] = ("ring",)
+                            return pre + self.seq(after + R, s2, cont, retk)
+                        return self.seq(before, sub, k2, retk)
+                    if d.get("kind") == "VarDecl" and RING in qt(d) and not init:
+                        sub[d["name"]] = ("ring?",)
+                        rest = ds[:i] + ds[i + 1:]
+                        return self.seq(([{"kind": "DeclStmt", "inner": rest}] if rest else []) + R, sub, cont, retk)
+            if k == "BinaryOperator" and s.get("opcode") == "=" and self.shm_open_call(s["inner"][1]) is not None:
+                l0 = strip_all(s["inner"][0])
+                if l0.get("kind") != "DeclRefExpr" or sub.get(l0["referencedDecl"]["name"], (None,))[0] not in ("ring?", "ring"):
+                    raise L.LeafError("result of muggle_shm_open assigned to something that is not a ring pointer local")
+                pre = self.open_stmts(self.shm_open_call(s["inner"][1]), sub)
+                sub[l0["referencedDecl"]["name"]] = ("ring",)
+                return pre + self.seq(R, sub, cont, retk)
+            if k in ("ImplicitCastExpr", "CStyleCastExpr", "ParenExpr") and strip_all(s).get("kind") == "CallExpr":
+                return self.seq([strip_all(s)] + R, sub, cont, retk)
+            if k == "CallExpr":
+                nm = self.callee(s)
+                if nm == "memset":
+                    a = s["inner"][1:]
+                    if len(a) != 3 or not self.ring_valued(a[0], sub):
+                        raise L.LeafError("memset of something that is not the ring")
+                    v = self.static_int(a[1], sub)
+                    try:
+                        sz = self.as_bytes(a[2], sub)
+                    except L.LeafError:
+                        sz = None
+                    if v is None or sz != (None, self.ring_size()):
+                        raise L.LeafError("memset of the ring is not (ring, constant, sizeof(ring))")
+                    byte = v & 0xFF
+                    out = []
+                    for f in OPEN_FIELDS:
+                        out.append(assign(self.field(f), lit(byte * 0x01010101, "unsigned int")))
+                    return out + self.seq(R, sub, cont, retk)
+                if nm in EXTERN_SKIP:
+                    a = s["inner"][1:]
+                    ok = len(a) == 1
+                    if ok:
+                        p = strip_all(a[0])
+                        ok = p.get("kind") == "UnaryOperator" and p.get("opcode") == "&" and \
+                            strip_all(p["inner"][0]).get("kind") == "MemberExpr" and \
+                            self.is_ring(self.member_base(strip_all(p["inner"][0])), sub) and \
+                            strip_all(p["inner"][0]).get("name", "").endswith("_lock")
+                    if not ok:
+                        raise L.LeafError("%s is not applied to a lock field of the ring" % nm)
+                    return self.seq(R, sub, cont, retk)
+                if nm == "muggle_shm_open":
+                    raise L.LeafError("result of muggle_shm_open dropped")
+        return Slicer.seq(self, stmts, sub, cont, retk)
+
+    def slice_open(self, name):
+        f = self.fn(name)
+        if f is None:
+            raise L.LeafError("function %s not found in %s" % (name, self.src))
+        self.uid = 0
+        self.loops = []
+        self.root = f
+        self.preload(f)
+        sub = {}
+        parms = [{"kind": "ParmVarDecl", "name": OPEN_RING, "type": {"qualType": RING + " *"}}]
+        for p in [c for c in f.get("inner", []) if c.get("kind") == "ParmVarDecl"]:
+            if L.ctype(p) is not None:
+                parms.append(p)
+            elif qt(p).strip().endswith("*"):
+                sub[p["name"]] = ("opaque",)
+            else:
+                raise L.LeafError("unsupported parameter type " + qt(p))
+
+        def retk(e, s):
+            if e is None:
+                raise L.LeafError("return without a value")
+            if _is_null(e):
+                v = lit(0, "long")
+            elif self.ring_valued(e, s):
+                v = lit(1, "long")
+            else:
+                raise L.LeafError("returned pointer is neither NULL nor the ring")
+            return [{"kind": "ReturnStmt", "inner": [v]}]
+        body = self.seq([self.body_of(f)], sub, lambda s: [], retk)
+        return {"kind": "FunctionDecl", "name": name, "type": {"qualType": "long (sliced)"},
+                "inner": parms + [{"kind": "CompoundStmt", "inner": body}]}
+
+
+class OpenTr(L.Tr):
+    def ex(self, n, env):
+        if n.get("kind") == "CallExpr":
+            c = L.strip_ptr(n["inner"][0])
+            if c.get("kind") == "DeclRefExpr" and c["referencedDecl"]["name"] in EXTERN_PURE:
+                args = [self.z(a, env) for a in n["inner"][1:]]
+                return ("(%s %s)" % (EXTERN_PURE[c["referencedDecl"]["name"]], " ".join(args)), "Z")
+        return L.Tr.ex(self, n, env)
+
+
+def translate_open(src, name, cflags, gname, sizeofs=None, enums=None):
+    fn = OpenSlicer(src, cflags, sizeofs, enums).slice_open(name)
+    t = OpenTr(fn, None, cflags)
+    body = [c for c in fn["inner"] if c.get("kind") == "CompoundStmt"][0]
+    t.all_written = []
+    L.collect_written(body, t.all_written)
+    for _ in range(3):
+        t.all_written = sorted(set(t.all_written) | set(t.written))
+        t.cnt = 0
+        env = {p: p for p in t.params}
+        code = t.stmts([body], env, "Z")
+        if set(t.written) <= set(t.all_written):
+            break
+    code = re.sub(r"@FIELD:(\w+)@", r"\1", code)
+    # every tracked field is an argument, whether this text touches it or not (stable signature)
+    fields = sorted(set(k for k, a in t.fields) | set("f_" + f for f in OPEN_FIELDS + ["seg_bytes"]))
+    if sorted(t.all_written) != fields:
+        raise L.LeafError("fields written by %s are %s, expected %s" % (name, sorted(t.all_written), fields))
+    args = ["(%s : Z)" % k for k in fields] + ["(%s : Z)" % p for p in t.params]
+    text = "Definition %s %s :=\n  %s.\n" % (gname, " ".join(args), code)
+    return text, fields, t.params
